@@ -52,4 +52,11 @@ var propSpecs = []PropSpec{
 		NotDecided:  "messages compared modulo letter case; names compared by other means than map lookup (strings.EqualFold sites are not enumerated); keywords true/false/null",
 		Assumptions: commonAssumptions,
 	},
+	{
+		ID:          "C09",
+		Rules:       []string{"C09.IMM", "C09.RESET", "C09.AST", "C09.FRESH", "C13.CONT"},
+		Explanation: "Decides the ownership clauses behind independence: (IMM) every mutation of an ObjectType/ArrayType (field store, Props write/delete) acts on an object whose provenance - followed through callers, returned values and all stores to the fields it is loaded from - consists only of fresh allocations; (RESET) every field of a rule type written while visiting a job is reset by VisitJobPost on all paths, assigned first by VisitJobPre, or undone in the same function; (AST) no rule writes into the workflow AST; (FRESH) expression checkers are never kept in rule state; (CONT, shared with C13) the parser never stops at a bad key.",
+		NotDecided:  "equality of diagnostic multisets across compositions; state kept in maps of workflow scope (RuleJobNeeds.nodes) is by design",
+		Assumptions: commonAssumptions,
+	},
 }
